@@ -355,13 +355,38 @@ pub fn d2_class(map: &Beatmap) -> bool {
     })
 }
 
-fn d2_object(h: &HitObject) -> bool {
+pub fn d2_object(h: &HitObject) -> bool {
     match &h.kind {
         HitObjectKind::Slider(s) => {
             let cps = s.path.control_points();
             cps.len() > 1 && cps.last().map_or(false, |p| p.path_type.is_some())
         }
         _ => false,
+    }
+}
+
+/// D18: no explicit length and a computed curve longer than the decoder's length limit
+pub fn d18_object(h: &HitObject) -> bool {
+    match &h.kind {
+        HitObjectKind::Slider(s) => {
+            if s.path.expected_dist().is_some() {
+                return false;
+            }
+            let mut p = s.path.clone();
+            let d = p.curve().dist();
+            !(d.abs() <= 131072.0)
+        }
+        _ => false,
+    }
+}
+
+pub fn lost_class(h: &HitObject) -> &'static str {
+    if d2_object(h) {
+        "D2"
+    } else if d18_object(h) {
+        "D18"
+    } else {
+        ""
     }
 }
 
@@ -467,7 +492,7 @@ pub fn oracle(map: &mut Beatmap, input: &str, origin: &str, out: &mut Out) -> Op
                 _ => Beatmap::parse_hit_objects(&mut state, l).is_ok(),
             });
             let obj_idx = body_counts[7].wrapping_sub(1);
-            let cls = if k == 7 && map.hit_objects.get(obj_idx).map_or(false, d2_object) { "D2" } else { "" };
+            let cls = if k == 7 { map.hit_objects.get(obj_idx).map_or("", lost_class) } else { "" };
             match res {
                 Err(p) => out.fail("", &desc, &format!("{} parser panicked on encoded line {:?}: {}", HEADERS[k], l, p)),
                 Ok(false) => out.fail(cls, &desc, &format!("{} parser rejects encoded line {:?}", HEADERS[k], l)),
@@ -499,8 +524,7 @@ pub fn oracle(map: &mut Beatmap, input: &str, origin: &str, out: &mut Out) -> Op
     match decode(&enc) {
         None => out.fail("", &desc, "re-decoding the encoded text failed"),
         Some(m2) => {
-            let d2 = d2_class(map);
-            let cls = if d2 { "D2" } else { "" };
+            let cls = map.hit_objects.iter().map(lost_class).find(|c| !c.is_empty()).unwrap_or("");
             if m2.hit_objects.len() != map.hit_objects.len() {
                 out.fail(cls, &desc, &format!("hit objects: {} encoded, {} after re-decoding", map.hit_objects.len(), m2.hit_objects.len()));
             }
